@@ -79,3 +79,50 @@ Example path_clauses_example :
      ["init_x_0 = data.sourceNode"; "nodes_tmp = object.get(init_x_0,""D"",[])"; "nodes_tmp2 = nodes_array with data.nodes as nodes_tmp";
       "x_0 = nodes_tmp2[_]"; "nodes = x_0"]]%string.
 Proof. vm_compute. reflexivity. Qed.
+
+(* ------------------------------------------------------------------ the step variables of a clause are bound once *)
+From ACV Require Import Proofs.ReportProofs.
+Local Open Scope string_scope.
+
+(* the variable each statement binds FOR A STEP (not the temporaries tmp_ / nodes_tmp, not init_, not nodes) *)
+Definition step_var (s : pstmt) : list string :=
+  match s with
+  | PInv b _ _ | PFetchB b | PLast b | PCInv b _ _ | PCId b => [b]
+  | _ => []
+  end.
+Definition step_vars (l : list pstmt) : list string := flat_map step_var l.
+
+Lemma NoDup_map_inj' {X Y} (f : X -> Y) l : (forall a b, f a = f b -> a = b) -> NoDup l -> NoDup (map f l).
+Proof.
+  intros Hinj. induction 1 as [|x l Hx Hl IH]; cbn [map]; constructor; auto.
+  rewrite in_map_iff. intros [y [E Hy]]. apply Hinj in E. subst. contradiction.
+Qed.
+Lemma binding_inj v i j : binding v i = binding v j -> i = j.
+Proof. unfold binding. intros E. apply append_inj_l in E. apply append_inj_l in E. now apply dec_inj. Qed.
+
+Lemma step_vars_of_step s b src : step_vars (step_stmts s b src) = [b].
+Proof. unfold step_stmts. destruct (custom_name (s_iri s)); destruct (s_inv s); try destruct (s_fetch s); reflexivity. Qed.
+
+Lemma step_vars_app a b : step_vars (a ++ b) = (step_vars a ++ step_vars b)%list.
+Proof. unfold step_vars. apply flat_map_app. Qed.
+
+(* from path-variable count S k on, the step variables are binding v (S k), binding v (S (S k)), ... *)
+Lemma emit_step_vars : forall v steps k src,
+  step_vars (emit v steps (S k) src) = map (fun i => binding v (S k + i)) (seq 0 (List.length steps)).
+Proof.
+  intros v. induction steps as [|s r IH]; intros k src; [reflexivity|].
+  cbn [emit]. rewrite step_vars_app, step_vars_of_step, IH. cbn [List.length seq map app]. rewrite Nat.add_0_r. f_equal.
+  rewrite <- seq_shift, map_map. apply map_ext. intros i. f_equal. lia.
+Qed.
+
+Theorem clause_step_variables_bound_once : forall p fetch v cl, In cl (path_clauses p fetch v) -> NoDup (step_vars cl).
+Proof.
+  intros p fetch v cl Hin. unfold path_clauses in Hin. apply in_map_iff in Hin as [c [<- Hc]].
+  pose proof (trav_nonempty p fetch [] c Hc) as Hne. destruct c as [|s r]; [congruence|]. cbn [emit].
+  change (PInit (binding v 0) :: step_stmts s (binding v 0) ("init_" ++ binding v 0) ++ emit v r 2 (binding v 0))
+    with ([PInit (binding v 0)] ++ step_stmts s (binding v 0) ("init_" ++ binding v 0) ++ emit v r 2 (binding v 0))%list.
+  rewrite !step_vars_app, step_vars_of_step, emit_step_vars. cbn [step_vars flat_map step_var app].
+  constructor.
+  - rewrite in_map_iff. intros [i [E _]]. apply binding_inj in E. lia.
+  - apply NoDup_map_inj'; [|apply seq_NoDup]. intros a b E. apply binding_inj in E. lia.
+Qed.
